@@ -39,6 +39,10 @@ type lockingStream struct {
 	maxAgeB int64
 	params  struct{ unlock, exit, jail, window, maxmissed int64 }
 	halted  bool
+	// CometBFT applies validator updates with a delay of two blocks: the last-commit (vote) infos of block N name the
+	// set recorded after block N-3.  setHist keeps the recorded sets; voteDelay (0 or 2) is fixed per world.
+	setHist   [][][2]string
+	voteDelay int
 }
 
 func init() {
@@ -63,6 +67,7 @@ func (s *lockingStream) newVal(r *tr.Rng) *lval {
 func e18(n int64) *big.Int { return new(big.Int).Mul(big.NewInt(n), big.NewInt(1e18)) }
 
 func (s *lockingStream) setup(r *tr.Rng) {
+	s.setHist, s.voteDelay = nil, tr.Pick(r, 0, 2, 2)
 	s.params.unlock = int64(tr.Pick(r, 20, 60, 600)) * 1e9 // 600 s: dozens of pending maturity slots at a time
 	s.params.exit = s.params.unlock + int64(tr.Pick(r, 0, 30, 100))*1e9
 	s.params.jail = int64(tr.Pick(r, 60, 90)) * 1e9
@@ -335,6 +340,14 @@ func (s *lockingStream) recordedSet() [][2]string {
 
 func (s *lockingStream) genBegin(r *tr.Rng) *tr.Op {
 	set := s.recordedSet()
+	s.setHist = append(s.setHist, set)
+	if len(s.setHist) > 8 {
+		s.setHist = s.setHist[len(s.setHist)-8:]
+	}
+	if k := len(s.setHist) - 1 - s.voteDelay; s.voteDelay > 0 && k >= 0 {
+		// validators displaced or demoted in the last two blocks still sign (and may be absent)
+		set = s.setHist[k]
+	}
 	cls := "begin"
 	var votes []string
 	for _, e := range set {
